@@ -192,3 +192,6 @@ func c13JSON(v any) string {
 }
 
 func TestC13Drafty(t *testing.T) { kit.Check(t, "C13", "TestC13Drafty", c13Gen, c13Exec) }
+
+// FuzzC13Drafty: the same generator and oracle as TestC13Drafty under Go's coverage-guided fuzzer (thorough tier).
+func FuzzC13Drafty(f *testing.F) { kit.FuzzOf(f, "C13", "TestC13Drafty", c13Gen, c13Exec) }
